@@ -145,12 +145,12 @@ Proof.
     + destruct (forallb mod_value_char v); [|discriminate]. injection H as <-. right. right. auto.
 Qed.
 
-Lemma mod_term tok x : parse_term true tok = Some x ->
+Lemma mod_term tok x : parse_term tok = Some x ->
   case_prefix MOD_REDIRECT tok = is_redirect x /\ case_prefix MOD_EXP tok = is_exp x
   /\ (is_redirect x = true -> exists d, x = TRedirect d /\ domain_spec d = true /\ (9 <= length tok)%nat /\ skipn 9 tok = d).
 Proof.
   unfold parse_term. destruct (parse_qual (hd0 tok)) as [q|] eqn:Eq.
-  - destruct (parse_mech true (tl tok)); [|discriminate]. intros H. injection H as <-.
+  - destruct (parse_mech (tl tok)); [|discriminate]. intros H. injection H as <-.
     cbn [is_redirect is_exp]. split; [|split; [|discriminate]].
     + destruct tok as [|c t]; [reflexivity|]. cbn [hd0] in Eq. unfold parse_qual in Eq.
       unfold MOD_REDIRECT. cbn [case_prefix].
@@ -164,8 +164,8 @@ Proof.
       destruct (c =? 45) eqn:E2; [apply N.eqb_eq in E2; subst; reflexivity|].
       destruct (c =? 126) eqn:E3; [apply N.eqb_eq in E3; subst; reflexivity|].
       destruct (c =? 63) eqn:E4; [apply N.eqb_eq in E4; subst; reflexivity|discriminate].
-  - destruct (parse_mech true tok) as [m|] eqn:Em.
-    + intros H. injection H as <-. destruct (parse_mech_not_mod _ _ _ Em) as [A B].
+  - destruct (parse_mech tok) as [m|] eqn:Em.
+    + intros H. injection H as <-. destruct (parse_mech_not_mod _ _ Em) as [A B].
       rewrite A, B. cbn. split; [reflexivity|split; [reflexivity|discriminate]].
     + intros H. destruct (parse_modifier_parts tok x H) as (n & v & -> & Hn & Cases).
       change MOD_REDIRECT with (N_REDIRECT ++ [61]). change MOD_EXP with (N_EXP ++ [61]).
@@ -183,8 +183,8 @@ Qed.
 
 (** the hits of a keyword are the terms it stands for *)
 Lemma hits_count (K : bytes) (isk : term -> bool) : nosp K = true ->
-  (forall tok x, parse_term true tok = Some x -> case_prefix K tok = isk x) ->
-  forall s intok ts, forallb rec_char s = true -> parse_terms true (tokens s intok) = Some ts ->
+  (forall tok x, parse_term tok = Some x -> case_prefix K tok = isk x) ->
+  forall s intok ts, forallb rec_char s = true -> parse_terms (tokens s intok) = Some ts ->
   length (mod_hits K s intok) = length (filter isk ts).
 Proof.
   intros HK Hk. induction s as [|c t IH]; intros intok ts Hs Hp.
@@ -198,13 +198,13 @@ Proof.
     { pose proof (drop_while_stops not_sp (c :: t)) as Q. fold rest in Q. destruct rest as [|e r]; [reflexivity|].
       cbn in Q |- *. unfold not_sp in Q. lia. }
     cbn [parse_terms] in Hp.
-    destruct (parse_term true tok) as [x|] eqn:Ex; [|discriminate].
-    destruct (parse_terms true (tokens t true)) as [xs|] eqn:Exs; [|discriminate]. injection Hp as <-.
+    destruct (parse_term tok) as [x|] eqn:Ex; [|discriminate].
+    destruct (parse_terms (tokens t true)) as [xs|] eqn:Exs; [|discriminate]. injection Hp as <-.
     rewrite Es, (cp_tok K HK tok rest Hr), (Hk tok x Ex). cbn [filter].
     pose proof (IH true xs Hs Exs) as IH'. destruct (isk x); cbn [app length]; rewrite IH'; reflexivity.
 Qed.
 
-Lemma hits_first : forall s intok ts, forallb rec_char s = true -> parse_terms true (tokens s intok) = Some ts ->
+Lemma hits_first : forall s intok ts, forallb rec_char s = true -> parse_terms (tokens s intok) = Some ts ->
   match mod_hits MOD_REDIRECT s intok with
   | [] => first_redirect ts = None
   | nx :: _ => exists d rest, first_redirect ts = Some d /\ nx = d ++ rest /\ sp_tail rest = true /\ domain_spec d = true
@@ -221,8 +221,8 @@ Proof.
     { pose proof (drop_while_stops not_sp (c :: t)) as Q. fold rest in Q. destruct rest as [|e r]; [reflexivity|].
       cbn in Q |- *. unfold not_sp in Q. lia. }
     cbn [parse_terms] in Hp.
-    destruct (parse_term true tok) as [x|] eqn:Ex; [|discriminate].
-    destruct (parse_terms true (tokens t true)) as [xs|] eqn:Exs; [|discriminate]. injection Hp as <-.
+    destruct (parse_term tok) as [x|] eqn:Ex; [|discriminate].
+    destruct (parse_terms (tokens t true)) as [xs|] eqn:Exs; [|discriminate]. injection Hp as <-.
     destruct (mod_term tok x Ex) as (A & _ & B).
     rewrite Es, (cp_tok MOD_REDIRECT eq_refl tok rest Hr), A.
     destruct (is_redirect x) eqn:Ir.
